@@ -2,7 +2,7 @@
 (* C07 - until()/run(till) end the block exactly when the notification      *)
 (*       fires, else never                                                  *)
 EXTENDS ObsBase
-Ids == 1..16
+Ids == 1..200
 VARIABLES tid, l, sco, flg, par, bad
 vars == <<tid, l, sco, flg, par, bad>>
 \* sco[s] = [owner, kind, f, open, trig (trigger time known), tt (trigger time), exited]
